@@ -7,6 +7,7 @@ import Dashu.Proofs.Panic.Loops2
 import Dashu.Proofs.Panic.Farey
 import Dashu.Proofs.Panic.LnLoop
 import Dashu.Proofs.Panic.Utf8
+import Dashu.Proofs.Panic.Guards5
 /-
   C16 — operations terminate and panic only where the documentation says so.   PARTIAL.
 
@@ -112,8 +113,15 @@ theorem fbig_div_guard (W : Nat) (a b : FArg) (k : Kind)
 theorem fbig_sqrt_guard (W : Nat) (a : FArg) (k : Kind) (hc : a.canonical) (hm : a.moderate) :
     guardFSqrt a = .error k ↔ documented W .fSqrt [.flt a] = some k := guardFSqrt_iff W a k hc hm
 
-theorem fbig_ulp_guard (W : Nat) (a : FArg) (k : Kind) (hc : a.canonical) (hm : a.moderate) :
-    guardFUlp a = .error k ↔ documented W .fUlp [.flt a] = some k := guardFUlp_iff W a k hc hm
+/- FULL STATEMENT (false for the current code, see the counterexample):  the same without `hp` -/
+theorem fbig_ulp_guard_partial (W : Nat) (a : FArg) (k : Kind) (hc : a.canonical) (hm : a.moderate) (hp : a.prec ≤ 2 ^ 62) :
+    guardFUlp a = .error k ↔ documented W .fUlp [.flt a] = some k := guardFUlp_iff W a k hc hm hp
+
+theorem fbig_ulp_guard_counterexample :
+    guardFUlp ⟨2, 3, -5, 2 ^ 63, 'Z'⟩ = .ok () ∧
+    documented 64 .fUlp [.flt ⟨2, 3, -5, 2 ^ 63, 'Z'⟩] = some .exponentOverflow := guardFUlp_counterexample
+
+example : (⟨2, 3, 0, 5, 'Z'⟩ : FArg).canonical = true ∧ (⟨2, 3, 0, 5, 'Z'⟩ : FArg).moderate = true := by decide +kernel
 
 -- guards that exist since the fix: commits c27ca7f, 65edb1e, 0ffa05d, d9f681e, b0e87a3 (full statements for the patched code)
 
@@ -474,5 +482,114 @@ theorem float_parser_cuts_safe (bs : List UInt8) (h : Utf8 bs) : ∀ i ∈ parse
 
 -- "1é.5e3": the cuts are 3,4 (around '.') and 5,6 (around 'e'); offset 2 (inside é = C3 A9) is not among them
 example : parserCuts [49, 0xC3, 0xA9, 46, 53, 101, 51] = [3, 4, 5, 6] := by decide
+
+-- ------------------------------------------------------------------ (5) round 5: size reservations, bare assert, folds
+-- The reservations of pow / from_chunks are UPPER BOUNDS of the result size.  What holds for all arguments is
+--   (S1) documented AllocTooMuch → the reservation is refused with AllocTooMuch   (prompt panic of the right kind)
+--   (S2) reservation refused     → the documentation does not say `returns`      (no result that fits is refused)
+-- and the driver checks exactly these two implications per case (`sizeConsistent`).
+/- FULL STATEMENT (false for the current code, see the counterexamples below):
+     guardPow W x e = some (.error .allocTooMuch) ↔ documented W .uPow [.int x, .dec e] = some .allocTooMuch
+   for every x: it fails in the band between the reservation and the result size for 1- and 2-word bases (the kinds
+   differ: AllocTooMuch instead of OutOfMemory) and a base of ≥ 3 words has no reservation at all. -/
+
+/-- `math::max_exp_in_word(base) = (k, base^k)`, `base^k ≤ Word::MAX`, `k ≥ 1` — for every word size -/
+theorem max_exp_in_word_spec (W base : Nat) (hb : 2 ≤ base) (hW : base < 2 ^ W) :
+    (maxExpInWord W base).2 = base ^ (maxExpInWord W base).1 ∧ (maxExpInWord W base).2 < 2 ^ W ∧
+    1 ≤ (maxExpInWord W base).1 := maxExpInWord_spec W base hb hW
+
+theorem pow_word_reservation_sound_partial (b e : Nat) (hb3 : 3 ≤ b) (hbW : b < 2 ^ 64) (hodd : b % 2 = 1) (he : 2 < e)
+    (hdoc : documented 64 .uPow [.int b, .dec e] = some .allocTooMuch) :
+    guardPowOdd 64 b e = .error .allocTooMuch := Dashu.Proofs.Panic.pow_word_reservation_sound b e hb3 hbW hodd he hdoc
+
+theorem pow_word_refused_not_returns (b e : Nat) (hb3 : 3 ≤ b) (hbW : b < 2 ^ 64) (hodd : b % 2 = 1) (he : 2 < e)
+    (hg : guardPowOdd 64 b e = .error .allocTooMuch) : verdict 64 .uPow [.int b, .dec e] ≠ some .returns :=
+  Dashu.Proofs.Panic.pow_word_refused_not_returns b e hb3 hbW hodd he hg
+
+theorem pow_dword_reservation_sound_partial (b e : Nat) (hlo : 2 ^ 64 ≤ b) (hhi : b < 2 ^ 128) (hodd : b % 2 = 1)
+    (he : 2 < e) (hdoc : documented 64 .uPow [.int b, .dec e] = some .allocTooMuch) :
+    guardPowOdd 64 b e = .error .allocTooMuch := Dashu.Proofs.Panic.pow_dword_reservation_sound b e hlo hhi hodd he hdoc
+
+theorem pow_dword_refused_not_returns (b e : Nat) (hlo : 2 ^ 64 ≤ b) (hhi : b < 2 ^ 128) (hodd : b % 2 = 1)
+    (he : 2 < e) (hg : guardPowOdd 64 b e = .error .allocTooMuch) :
+    verdict 64 .uPow [.int b, .dec e] ≠ some .returns :=
+  Dashu.Proofs.Panic.pow_dword_refused_not_returns b e hlo hhi hodd he hg
+
+theorem pow_dword_band_counterexample :
+    guardPowOdd 64 (2 ^ 64 + 1) (2 ^ 57) = .error .allocTooMuch ∧
+    documented 64 .uPow [.int (2 ^ 64 + 1), .dec (2 ^ 57)] = some .outOfMemory :=
+  Dashu.Proofs.Panic.pow_dword_band_counterexample
+
+theorem pow_large_no_reservation_counterexample :
+    guardPowOdd 64 (2 ^ 200 + 1) (2 ^ 57) = .ok () ∧ guardPow 64 (2 ^ 200 + 1) (2 ^ 57) = none ∧
+    documented 64 .uPow [.int (2 ^ 200 + 1), .dec (2 ^ 57)] = some .allocTooMuch :=
+  Dashu.Proofs.Panic.pow_large_no_reservation
+
+/-- a power of two: full equivalence (the `1 << n` request is exact) -/
+theorem pow_two_reservation_guard (x e : Nat) (hx : 1 < x) (hodd : x >>> tz2 x = 1) (he : 2 ≤ e) :
+    guardPowTwoShift 64 (tz2 x) e = .error .allocTooMuch ↔
+      documented 64 .uPow [.int x, .dec e] = some .allocTooMuch :=
+  Dashu.Proofs.Panic.pow_two_reservation x e hx hodd he
+
+theorem from_chunks_reservation_sound_partial (k : Nat) (l : List Nat) (hk : k ≠ 0) (hl : l ≠ [])
+    (hfit : ¬ (fromChunksLen 64 k l > usizeMax))
+    (hdoc : documented 64 .uFromChunks (.dec k :: l.map (fun (c : Nat) => Arg.int (c : Int))) = some .allocTooMuch) :
+    guardFromChunksSize 64 k l = some (.error .allocTooMuch) :=
+  Dashu.Proofs.Panic.from_chunks_reservation_sound k l hk hl hfit hdoc
+
+theorem from_chunks_refused_not_returns (k : Nat) (l : List Nat) (hk : k ≠ 0) (hl : l ≠ [])
+    (hsmall : (l.map (wordLen 64)).foldl max 0 ≤ 2 ^ 32)
+    (hg : guardFromChunksSize 64 k l = some (.error .allocTooMuch)) :
+    verdict 64 .uFromChunks (.dec k :: l.map (fun (c : Nat) => Arg.int (c : Int))) ≠ some .returns :=
+  Dashu.Proofs.Panic.from_chunks_refused_not_returns k l hk hl hsmall hg
+
+theorem from_chunks_overallocation_counterexample :
+    guardFromChunksSize 64 (2 ^ 58) [0, 1] = some (.error .allocTooMuch) ∧
+    documented 64 .uFromChunks [.dec (2 ^ 58), .int 0, .int 1] = some .outOfMemory :=
+  Dashu.Proofs.Panic.from_chunks_overallocation_counterexample
+
+theorem from_chunks_arithmetic_unchecked_counterexample :
+    guardFromChunksSize 64 (2 ^ 64 - 1) [1, 0, 255] = none ∧
+    documented 64 .uFromChunks [.dec (2 ^ 64 - 1), .int 1, .int 0, .int 255] = some .allocTooMuch :=
+  Dashu.Proofs.Panic.from_chunks_arithmetic_unchecked
+
+/-- `RBig/Relaxed::to_float(0)`: the bare assert stops the call exactly where UnlimitedPrecision is documented -/
+theorem rbig_to_float_assert_guard (W : Nat) (n d : Int) (c : Char) (p : Nat) (hd : 0 < d) :
+    qToFloatAssertFails p = true ↔
+      documented W .qToFloat [.int n, .int d, .kind c, .dec p] = some .unlimitedPrecision :=
+  qToFloat_assert_iff W n d c p hd
+
+theorem rbig_to_float_b_assert_guard (W : Nat) (n d : Int) (c : Char) (p : Nat) (b : Int) (hd : 0 < d) (hb : b = 2 ∨ b = 10) :
+    qToFloatAssertFails p = true ↔
+      documented W .qToFloatB [.int n, .int d, .kind c, .dec p, .dec b] = some .unlimitedPrecision :=
+  qToFloatB_assert_iff W n d c p b hd hb
+
+theorem fbig_sum_guard (W : Nat) (l : List FArg) (k : Kind) (hok : fListOk l = true)
+    (hsmall : l.all (fun a => a.isInf ∨ (a.exp.natAbs ≤ 2 ^ 20)) = true) :
+    guardFFold l = .error k ↔ documented W .fSum (l.map Arg.flt) = some k := fSum_guard_iff W l k hok hsmall
+
+theorem fbig_product_guard (W : Nat) (l : List FArg) (k : Kind) (hok : fListOk l = true)
+    (hsmall : (l.length ≤ 2 ^ 10 ∧ l.all (fun a => a.isInf ∨ (a.exp.natAbs ≤ 2 ^ 40)) = true)) :
+    guardFFold l = .error k ↔ documented W .fProduct (l.map Arg.flt) = some k := fProduct_guard_iff W l k hok hsmall
+
+theorem int_fold_never_panics (W : Nat) (cs : List Arg) (op : Op)
+    (hop : op ∈ [Op.uSum, .iSum, .uProduct, .iProduct]) : documented W op cs = none := no_panic_int_fold W cs op hop
+
+theorem hash_never_panics (W : Nat) (x n d : Int) (c : Char) :
+    documented W .uHash [.int x] = none ∧ documented W .iHash [.int x] = none ∧
+    documented W .qHash [.int n, .int d, .kind c] = none := no_panic_hash W x n d c
+
+-- non-vacuity of the hypotheses
+example : documented 64 .uPow [.int 3, .dec (2 ^ 64 - 1)] = some .allocTooMuch := by decide +kernel
+example : guardPowOdd 64 3 (2 ^ 64 - 1) = .error .allocTooMuch := by decide +kernel
+example : documented 64 .uPow [.int (2 ^ 64 + 1), .dec (2 ^ 63)] = some .allocTooMuch := by decide +kernel
+example : (2 ^ 10) >>> tz2 (2 ^ 10) = 1 ∧ tz2 (2 ^ 10) = 10 := by decide
+example : guardPowTwoShift 64 10 (2 ^ 62) = .error .allocTooMuch := by decide
+example : maxExpInWord 64 3 = (40, 3 ^ 40) ∧ maxExpInWord 64 10 = (19, 10 ^ 19) ∧ maxExpInWord 64 (2 ^ 32 + 1) = (1, 2 ^ 32 + 1) := by
+  decide +kernel
+example : documented 64 .uFromChunks (.dec (2 ^ 64 - 64) :: [0, 1].map (fun (c : Nat) => Arg.int (c : Int))) = some .allocTooMuch ∧
+    ¬ (fromChunksLen 64 (2 ^ 64 - 64) [0, 1] > usizeMax) := by decide +kernel
+example : guardFFold [⟨2, 3, 0, 5, 'Z'⟩, ⟨2, 0, 1, 0, 'Z'⟩] = .error .infinite := by decide
+example : fListOk [⟨2, 3, 0, 5, 'Z'⟩, ⟨2, 0, 1, 0, 'Z'⟩] = true := by decide +kernel
 
 end Dashu.Props.C16
